@@ -158,14 +158,31 @@ func tightTree(n *graph.Node, visitedEdges graph.EdgeSet, visitedNodes graph.Nod
 			m := e.ConnectedNode(n)
 			if e.IsInSpanningTree {
 				tightTree(m, visitedEdges, visitedNodes)
-			} else if !visitedNodes[m] && slack(e) == 0 {
-				// checking that m hasn't been seen before ensures there are no loopbacks in this spanning tree
+			} else if !visitedNodes[m] && !inSpanningTree(m) && slack(e) == 0 {
+				// checking that m hasn't been seen before ensures there are no loopbacks in this spanning tree;
+				// m may also belong to the tree grown by a previous call without having been reached yet by this one:
+				// it will be, through its tree edge, so a second edge to it would close a cycle
 				e.IsInSpanningTree = true
 				tightTree(m, visitedEdges, visitedNodes)
 			}
 		}
 	})
 	return visitedNodes
+}
+
+// reports whether n is already attached to the spanning tree by one of its edges
+func inSpanningTree(n *graph.Node) bool {
+	for _, e := range n.In {
+		if e.IsInSpanningTree {
+			return true
+		}
+	}
+	for _, e := range n.Out {
+		if e.IsInSpanningTree {
+			return true
+		}
+	}
+	return false
 }
 
 // This finds a "non-tree edge incident on the tree with min amount of slack".
